@@ -3,6 +3,7 @@ import AquaVerif.Drv.RainPartition
 import AquaVerif.Drv.RootZone
 import AquaVerif.Drv.WaterStress
 import AquaVerif.Drv.Drainage
+import AquaVerif.Drv.Transpiration
 import AquaVerif.Drv.SoilBuild
 import AquaVerif.Drv.SoilEvaporation
 import AquaVerif.Drv.Calendar
@@ -39,6 +40,7 @@ def handlers : List (String × Handler) := [
   ("soil_profile", hSoilProfile),
   ("init_wc", hInitWC),
   ("gw_series", hGwSeries),
+  ("transpiration", hTranspiration),
   ("clock", hClock),
   ("clock_calls", hClockCalls),
   ("calendar", hCalendar),
